@@ -396,6 +396,9 @@ func (b *backends) serveRW(c io.ReadWriteCloser, raw net.Conn, route, id int) {
 			b.tunnel(c, br)
 			return
 		}
+		if strings.HasPrefix(parts[1], "/__stall") {
+			mode = "stall" // a single exchange that never gets its answer
+		}
 		switch mode {
 		case "stall":
 			select {
